@@ -467,6 +467,8 @@ class Executor:
     def const_key(self, st, kx):
         if isinstance(kx, ast.Constant) and isinstance(kx.value, str):
             return kx.value
+        if isinstance(kx, ast.Constant) and isinstance(kx.value, int) and not isinstance(kx.value, bool):
+            return kx.value          # integer keys of a literal table (the parser's state map)
         if isinstance(kx, ast.Name) and kx.id in st.env and isinstance(st.env[kx.id], VStr):
             c = concrete_str(st.env[kx.id].t)
             if c is not None:
@@ -631,6 +633,10 @@ class Executor:
             c = concrete_str(item.t)
             if c is not None:
                 return c
+        if isinstance(item, VInt):
+            t = z3.simplify(item.t)
+            if z3.is_int_value(t):
+                return t.as_long()
         raise EngineUnsupported("non-constant key")
 
     def ev_in_genexp(self, st, left, gen: ast.GeneratorExp, negate):
